@@ -91,6 +91,13 @@ e1t("C12", "Same timed exploration with reads under the lease policy against eve
 e1t("C30", "Writes (put, CAS), linearizable and lease reads and a write+read pair in one drain cycle against an established leader, a freshly elected leader whose no-op is not committed yet, and a leader whose state machine stalls; followed by any of: time passing with nothing delivered (permanent quorum loss), elections / higher-term vote requests (step-down), a follower crash, a failing apply (fatal error: the node exits and its channels close). The explorer appends to EVERY explored path a closure in which only time passes (up to 8 further timer expiries, votes unanswered). Oracle after every event: no request accepted by a live node is older than its deadline (7 s) plus tick slack without an answer (value, error or closed channel).")
 e1t("C32", "Fault prefixes (process/power crashes and graceful stops of up to a minority, restarts, broken replication streams, withheld messages, elections at their timer deadlines) from boot and under an established leader; the explorer appends to EVERY explored path the recovery closure: every down node restarts, every message is delivered in FIFO order, timers expire at their deadlines, and once a leader has confirmed itself one write is issued (bounded number of fair steps). Oracle: a leader exists, the write is acknowledged, and every live voter has applied up to the leader's commit index. Liveness is decided for this canonical fair continuation only.")
 
+add("C13", "apimc", "model_checking", "exhaustive matrix enumeration on simulated clusters of real Raft nodes with the real read handles",
+    "Full matrix: server default policy x allow_client_override x node state {leader with expired lease and no reachable quorum; leader with valid lease and lagging state machine; follower; candidate; learner} x client policy {none, linearizable, lease, eventual} x path {Raft command path; EmbeddedReadHandle::get_batch; StandaloneReadHandle::get_batch + ReadActor} = 360 cases, each on a fresh cluster. The policy actually used is identified from behaviour (answers locally / waits for quorum or apply / refuses with not-leader) and must equal (override allowed ? client-or-default : default); non-leaders must refuse linearizable and lease reads with a not-leader error.",
+    "The gRPC handler's own routing lines are represented by calling StandaloneReadHandle::get_batch for requests naming the eventual/lease policy and the command path otherwise (what handle_client_read does); tonic transport not exercised.", "DESIGN.md section 4 C13")
+add("C35", "apimc", "model_checking", "exhaustive enumeration of (state, key list, read path) on a simulated cluster of real Raft nodes with the real read handles",
+    "9 states (keys a,b each absent / empty / x) x all 39 key lists of length 1..3 over {a,b,c} (duplicates, missing key) x {EmbeddedReadHandle under eventual/lease/linearizable, StandaloneReadHandle + ReadActor under eventual/lease, Raft command path under linearizable/eventual, gRPC fast-path response builder}: one result per requested key, in request order, empty value distinct from absent. StateMachine::get_multi on both engines is covered by C22's sweep.",
+    "The gRPC client's alignment lines are mirrored on the server's real response; tonic transport not exercised.", "DESIGN.md section 4 C35")
+
 NOT_BUILT = "check not built yet (work in progress, DESIGN.md section 10 build order); no verdict is claimed for this property"
 
 manifest = {
